@@ -152,3 +152,75 @@ contract(
     trace={"pdb2pqr.quatfit:find_coordinates": V3},
     name="repair_heavy.too_few", native=False,
 )
+
+
+# ====================================================================================================== add_hydrogens
+# Every hydrogen of the residue's template that is not there yet is added once (by the tetrahedral route when that
+# accepts it, otherwise by a three-point placement whose structure and template points correspond - the peptide
+# neighbour stands for the pseudo-atom C-1); atoms that are there keep their coordinates; a BRIDGED cysteine does not
+# get its thiol hydrogen back (C13).
+def call_ok_h(c, res, target, prev_c):
+    ok = c.args['numpoints'] == 3 and len(c.args['refcoords']) == 3 and len(c.args['defcoords']) == 3
+    ok = ok and at(c.args['defatomcoords'], res.reference.map[target])
+    k = 0
+    for sc in c.args['refcoords']:
+        hit = False
+        for name in ["N", "CA", "C", "CB", "SG"]:
+            if name in res.map:
+                if at(sc, res.map[name]) and at(c.args['defcoords'][k], res.reference.map[name]):
+                    hit = True
+        if prev_c is not None and at(sc, prev_c) and at(c.args['defcoords'][k], res.reference.map["C-1"]):
+            hit = True
+        ok = ok and hit
+        k = k + 1
+    return ok
+
+
+contract(
+    "pdb2pqr.biomolecule:Biomolecule.add_hydrogens", ["C03", "C04", "C05"],
+    params={"self": Obj("pdb2pqr.biomolecule:Biomolecule", residues=Items(Named("res", Obj(
+        "pdb2pqr.aa:GLY", name=Const("GLY"), res_seq=Int, chain_id=Const("A"), ins_code=Const(""),
+        peptide_n=Const(None), peptide_c=Named("prev_c", AT("prev_c", "C")),
+        atoms=Items(Ref("n"), Ref("ca"), Ref("c")),
+        map=DictOf(("N", AT("n", "N")), ("CA", AT("ca", "CA")), ("C", AT("c", "C"))),
+        pool=Items(AT("new1", "??"), AT("new2", "??")),
+        reference=Obj("pdb2pqr.definitions:DefinitionResidue", name=Const("GLY"), map=DictOf(
+            ("N", DA("N", ["CA", "H", "C-1"])), ("CA", DA("CA", ["N", "C", "HA2"])), ("C", DA("C", ["CA"])),
+            ("H", DA("H", ["N"])), ("HA2", DA("HA2", ["CA"])), ("C-1", DA("C-1", ["N"])))))))),
+            "hlist": Const(None)},
+    requires=[],
+    ensures=[
+        "'H' in res.map and 'HA2' in res.map and len(res.atoms) == 5",
+        "same_xyz(n, old(n)) and same_xyz(ca, old(ca)) and same_xyz(c, old(c)) and same_xyz(prev_c, old(prev_c))",
+        "res.atoms[0] is n and res.atoms[1] is ca and res.atoms[2] is c",
+        "len(calls_of('find_coordinates')) == 2 and len(calls_of('rebuild_tetrahedral')) == 2",
+        "call_ok_h(calls_of('find_coordinates')[0], res, 'H', prev_c) and at(calls_of('find_coordinates')[0].ret, res.map['H'])",
+        "call_ok_h(calls_of('find_coordinates')[1], res, 'HA2', prev_c) and at(calls_of('find_coordinates')[1].ret, res.map['HA2'])",
+    ],
+    stubs={"pdb2pqr.aa:Amino.create_atom": "stub_create_atom"},
+    trace={"pdb2pqr.quatfit:find_coordinates": V3, "pdb2pqr.aa:Amino.rebuild_tetrahedral": Const(False)},
+    name="add_hydrogens.gly_mid_chain", native=False,
+)
+
+contract(
+    "pdb2pqr.biomolecule:Biomolecule.add_hydrogens", ["C03", "C13"],
+    params={"self": Obj("pdb2pqr.biomolecule:Biomolecule", residues=Items(Named("res", Obj(
+        "pdb2pqr.aa:CYS", name=Const("CYS"), res_seq=Int, chain_id=Const("A"), ins_code=Const(""),
+        ss_bonded=Enum(0, 1), peptide_n=Const(None), peptide_c=Const(None),
+        atoms=Items(Ref("ca"), Ref("cb"), Ref("sg")),
+        map=DictOf(("CA", AT("ca", "CA")), ("CB", AT("cb", "CB")), ("SG", AT("sg", "SG"))),
+        pool=Items(AT("new1", "??")),
+        reference=Obj("pdb2pqr.definitions:DefinitionResidue", name=Const("CYS"), map=DictOf(
+            ("CA", DA("CA", ["CB"])), ("CB", DA("CB", ["CA", "SG"])), ("SG", DA("SG", ["CB", "HG"])),
+            ("HG", DA("HG", ["SG"])))))))),
+            "hlist": Const(None)},
+    requires=[],
+    ensures=[
+        # the thiol hydrogen is (re)built on a free cysteine and NOT on a bridged one
+        "iff('HG' in res.map, not res.ss_bonded)",
+        "same_xyz(ca, old(ca)) and same_xyz(cb, old(cb)) and same_xyz(sg, old(sg))",
+    ],
+    stubs={"pdb2pqr.aa:Amino.create_atom": "stub_create_atom"},
+    trace={"pdb2pqr.quatfit:find_coordinates": V3, "pdb2pqr.aa:Amino.rebuild_tetrahedral": Const(False)},
+    name="add_hydrogens.cys_thiol", native=False,
+)
